@@ -34,10 +34,6 @@ theorem c14_fat_capacity_32 (size : Int) (h0 : 0 ≤ size) (row : Nat × Nat) (h
 
 theorem c14_fits (size ss : Int) (hs : 0 < ss) : mkfs_num_sec size ss * ss ≤ size := fits size ss hs
 
-/-- the rows with 0 sectors per cluster are the "too small for this type" rows: `__verify_bpb_header` rejects them -/
-theorem c14_error_rows : (Gen.mkfsTable16.filter (·.2 == 0)).map (·.1) = [8400] ∧
-    (Gen.mkfsTable32.filter (·.2 == 0)).map (·.1) = [66600] ∧ (Gen.mkfsTable12.filter (·.2 == 0)) = [] := by decide
-
 theorem c14_spc_legal : (Gen.mkfsTable12 ++ Gen.mkfsTable16 ++ Gen.mkfsTable32).all
     (fun r => r.2 == 0 || Gen.acceptedSecPerClus.contains r.2) = true := by decide
 
